@@ -918,6 +918,40 @@ func (sc c13Scenario) run(r Rng) (fails []Failure, reads *c13Reads) {
 		if d := sim.frames('d'); len(d) != 1 || d[0].Port != sc.port || d[0].From != sc.mycall || d[0].To != sc.peer {
 			fail("close", "TNC saw disconnect frames %+v", d)
 		}
+		// ---- a second connection to the same station on the same port, the station speaking first
+		if !sc.accept && sc.id%3 == 1 {
+			dctx, cancel := context.WithTimeout(context.Background(), 5*time.Second)
+			c2, err := port.DialContext(dctx, sc.peer, sc.digis...)
+			cancel()
+			if err != nil {
+				fail("redial", "second DialContext to the same station: %v", err)
+				return
+			}
+			var want2 []byte
+			for k := 0; k < 3; k++ {
+				g := []byte(fmt.Sprintf("[second connection, frame %d]\r", k))
+				want2 = append(want2, g...)
+				sendSplit(simFrame{Port: sc.port, Kind: 'D', PID: 0xf0, From: sc.peer, To: sc.mycall, Data: g}.encode())
+				time.Sleep(3 * time.Millisecond)
+			}
+			var got2 []byte
+			for len(got2) < len(want2) {
+				buf := make([]byte, 64)
+				c2.SetReadDeadline(time.Now().Add(3 * time.Second))
+				n, err := c2.Read(buf)
+				got2 = append(got2, buf[:n]...)
+				if err != nil {
+					break
+				}
+			}
+			if !bytes.Equal(got2, want2) {
+				fail("read-stream", "second connection to the same station: Read yielded %q, the TNC sent %q", trunc(string(got2)), trunc(string(want2)))
+				return
+			}
+			if err := c2.Close(); err != nil {
+				fail("close", "Close of the second connection: %v", err)
+			}
+		}
 		port.Close()
 		time.Sleep(time.Millisecond)
 		if x := sim.frames('x'); len(x) != 1 || x[0].Port != sc.port || x[0].From != sc.mycall {
